@@ -145,8 +145,11 @@ def replay_agg(inp):
     daily = float_daily_frame(idx, inp["with_obs"], inp["st"], inp["env"])
     m = F.model("single", BillingModel, tz=inp["zone"])
     m._predict = lambda df: daily.copy()
+    given = daily[["temperature"]].copy()
+    if inp["with_obs"]:
+        given["observed"] = np.array([float(inp["env"].get(f"iobs{i}", 7.0 + i)) for i in range(len(idx))])
     try:
-        out = m.predict(_billing_data(daily[["temperature"] + (["observed"] if inp["with_obs"] else [])]), aggregation=inp["agg"])
+        out = m.predict(_billing_data(given), aggregation=inp["agg"])
     except Exception as ex:
         return True, f"{type(ex).__name__}: {ex}"
     pr = check_concrete(daily, out, inp["agg"])
@@ -187,7 +190,7 @@ def run_case(case: Case, name: str):
     n = len(idx)
     nan_rows = [1, n - 2, 0, 2][: (4 if case.tier == "thorough" else 2)]
     names = ["temperature", "observed", "predicted", "predicted_unc", "heating_load", "cooling_load"]
-    case.inputs = [z3.Real(f"{c}{i}") for c in names for i in range(n)]
+    case.inputs = [z3.Real(f"{c}{i}") for c in names for i in range(n)] + [z3.Real(f"iobs{i}") for i in range(n)]
 
     def run():
         eng = E.cur()
@@ -197,7 +200,12 @@ def run_case(case: Case, name: str):
                 eng.assume(z3.Real(f"predicted_unc{i}") >= 0)
         m = F.model("single", BillingModel, tz=zone)
         m._predict = lambda df: daily.copy()
-        data = _billing_data(daily[["temperature"] + (["observed"] if with_obs else [])])
+        # the frame the data object hands out carries the usage as supplied (own symbols); the daily result's observed
+        # column is the masked one: the aggregate must be taken from the result, not from the input
+        given = daily[["temperature"]].copy()
+        if with_obs:
+            given["observed"] = SymArray([real(f"iobs{i}") for i in range(n)])
+        data = _billing_data(given)
         out = m.predict(data, aggregation=agg)
         return daily, st, out
 
